@@ -94,7 +94,37 @@ namespace {
          if (d == nullptr) throw vh::HarnessError("cannot declare " + kind + " in scope " + std::to_string(s));
          if (decl_id.count(d)) return -3;                 // an existing declaration was returned
          decls.push_back(d);
-         return decl_id[d] = static_cast<int>(decls.size()) - 1;
+         int id = decl_id[d] = static_cast<int>(decls.size()) - 1;
+         // specifiers of its own, a function of its identity (see IprScopes!Obs)
+         if (s == 1 or s == 2) {
+            ipr::Specifiers sp { };
+            int bits = id % 7 + 1;
+            for (int b = 0; b < 3; ++b) if (bits & (1 << b)) sp |= spec_menu(b);
+            set_specifiers(const_cast<ipr::Decl*>(d), sp);
+         }
+         return id;
+      }
+
+      ipr::Specifiers spec_menu(int b) const
+      {
+         const ipr::Lexicon& il = lex;
+         return b == 0 ? il.static_specifier() : b == 1 ? il.inline_specifier() : il.virtual_specifier();
+      }
+      static void set_specifiers(ipr::Decl* d, ipr::Specifiers sp)
+      {
+#define TRY(K) if (auto p = dynamic_cast<impl::K*>(d)) { p->specifiers(sp); return; }
+         TRY(Var) TRY(Field) TRY(Bitfield) TRY(Typedecl) TRY(Alias) TRY(Fundecl) TRY(Template)
+#undef TRY
+         throw vh::HarnessError("declaration without settable specifiers");
+      }
+      long spec_value(const ipr::Decl& d) const
+      {
+         long v = 0;
+         auto sp = d.specifiers();
+         for (int b = 0; b < 3; ++b) if (ipr::implies(sp, spec_menu(b))) v |= 1 << b;
+         if ((sp ^ (((v & 1) ? spec_menu(0) : ipr::Specifiers{}) | ((v & 2) ? spec_menu(1) : ipr::Specifiers{}) | ((v & 4) ? spec_menu(2) : ipr::Specifiers{})))
+             != ipr::Specifiers{}) v |= 64;          // something else in the set
+         return v;
       }
 
       template<class F> static Value guarded(F f)
@@ -124,6 +154,7 @@ namespace {
             return a;
          }));
          o.set("pos", guarded([&] { return position_of(d, index); }));
+         o.set("spec", guarded([&] { return Value{spec_value(d)}; }));
          if (with_init) o.set("init", guarded([&] {
             auto a = dynamic_cast<const ipr::Alias*>(&d);
             if (a == nullptr) return Value{0};
@@ -221,7 +252,7 @@ namespace {
       auto& gd = got.at("decls");
       if (ed.size() != gd.size()) return "decls";
       for (std::size_t k = 0; k < ed.size(); ++k)
-         for (auto f : {"n", "t", "master", "declset", "pos", "init"})
+         for (auto f : {"n", "t", "master", "declset", "pos", "init", "spec"})
             if (not vj::equal(ed.at(k).at(f), gd.at(k).at(f))) return f;
       return "other";
    }
